@@ -180,7 +180,7 @@ def main():
     R.coverage["distinct_nontrivial"] = len(distinct) + share_cases
     R.coverage["rule"] = ("one evaluation = one in-process ceremony (all n nodes run concurrently): FROST through dkg.runFrostParallel over an in-memory transport, "
                           "FROST over the real frostP2P transport with controlled order and multiplicity of deliveries, Pedersen through pedersen.RunDKG (also as a second ceremony on the same hosts with a straggler message of the abandoned session), "
-                          "or a full dkg.Run scenario (plain / add-validators) whose artefacts on disk are checked; "
+                          "or a full dkg.Run scenario (plain / add-validators, with tolerated stray artefact siblings of an earlier ceremony in some data dirs, or with per-node keymanagers that are healthy / answer 500 / hang) whose artefacts (disk or keymanager) are checked; "
                           "FROST over the real transport with ONE faulty participant (threshold +-1, extra / missing commitment, wrong ValIdx / SourceID / TargetID, share sent to the wrong target, shares of two validators exchanged), "
                           "Pedersen with scripted faulty dealers (1 or 2 dealers deal an undecryptable share: complaint + justification must recover) and with lost deal / response / justification bundles (lossy stream wrapper); "
                           "plus one evaluation per direct call of dkg/share.MsgFromShare (share index map -> published list: dense index sets 1..n for every n = 1..40, sparse sets, large indices; position i-1 of the published list must hold the public share of index i); "
@@ -189,7 +189,7 @@ def main():
     ran = []
     for cls, o in runs:
         if cls == "run":
-            ran = ["%s %s n=%d t=%d vals=%d%s%s (%.0fs)" % (c.get("algo"), c.get("flow"), c["n"], c["t"], c["vals"], ("+%d" % c["add"]) if c.get("add") else "", " no-verify" if c.get("no_verify") else "", c.get("seconds", 0))
+            ran = ["%s %s n=%d t=%d vals=%d%s%s (%.0fs)" % (c.get("algo"), c.get("flow"), c["n"], c["t"], c["vals"], ("+%d" % c["add"]) if c.get("add") else "", (" no-verify" if c.get("no_verify") else "") + ((" dirty-dirs=%s" % c["dirty_nodes"]) if c.get("dirty_nodes") else "") + ((" keymanagers=%s" % c["keymanager"]) if c.get("keymanager") else ""), c.get("seconds", 0))
                    for c in (o.get("ceremonies") or [])]
     R.coverage["input_distribution"] = {"ceremonies": dist, "share_to_published_list_cases": share_dist, "validators_checked_in_coq": len(rows), "go_checks": checks,
                                         "full_dkg_run_scenarios_this_run": ran,
